@@ -11,7 +11,18 @@ def build_fd(fedjax, kind, ids, path=None):
           for i, cid in enumerate(ids)}
   if kind == 'mem':
     return fedjax.InMemoryFederatedData(data), data
+  if kind in ('subset', 'slice'):
+    # derived views of a larger in-memory dataset (two more clients after the last id)
+    more = dict(data)
+    for j, cid in enumerate((b'\xff\xff', b'\xff\xff\x01')):
+      more[cid] = {'x': np.arange(2, dtype=np.int32) - 7 - j, 'who': np.full((2,), -1, np.int32)}
+    base = fedjax.InMemoryFederatedData(more)
+    if kind == 'subset':
+      return fedjax.SubsetFederatedData(base, list(ids)), data
+    return base.slice(start=None, stop=max(ids) + b'\x00'), data
   from fedjax.core import sqlite_federated_data as sq  # pylint: disable=g-import-not-at-top
+  if kind == 'sqlsub':
+    return fedjax.SubsetFederatedData(sq.SQLiteFederatedData.new(path), list(ids)), data
   return sq.SQLiteFederatedData.new(path), data
 
 
